@@ -90,6 +90,7 @@ class GroupLibrary(Mapping):
         self.contents = dict((group, property_sets)
                              for (group, property_sets) in contents)
         self.uq_contents = uq_contents
+        self.name = None
 
     def GetDescriptors(self, mol):
         """Determine groups appearing in chemical structure `chem`.
